@@ -59,8 +59,8 @@ def scan_sources():
     return hits
 
 
-AX_RE = re.compile(r"'([^']+)' depends on axioms: \[([^\]]*)\]")
-NOAX_RE = re.compile(r"'([^']+)' does not depend on any axioms")
+AX_RE = re.compile(r"'(\S+)' depends on axioms: \[([^\]]*)\]")
+NOAX_RE = re.compile(r"'(\S+)' does not depend on any axioms")
 
 
 def audit(prop: str):
